@@ -103,6 +103,16 @@ Proof.
 Qed.
 Print Assumptions C16_generated_statement_linear.
 
+(* ... and with declarations `T x;` / `T x = e;` among the block items (the declarator's name is found by a speculative scan that is
+   always reset - _peek_declarator_name_info - so the declared identifier is read twice): still at most 3 reads per token *)
+Theorem C16_generated_statement_with_declarations_linear : forall (P: Type) rp (x: st), swfD x ->
+  forall (s: ParserBase.pstate P) le stop l0, Spell P le (stoks rp x) -> Up P s (le ++ stop :: l0) ->
+  (sopen x = true -> kind_eqb (tk stop) K_ELSE = false) -> NoTD (ParserBase.scopes P s) ->
+  exists f0 N s', (forall f, (f0 <= f)%nat -> p_statement P f s = Ok (N, s')) /\ Up P s' (stop :: l0) /\
+    idx P s' = (idx P s + length le)%nat /\ (N.to_nat (ticks P s') <= N.to_nat (ticks P s) + 3 * length le)%nat.
+Proof. exact statements_with_decls_linear. Qed.
+Print Assumptions C16_generated_statement_with_declarations_linear.
+
 (* the hypotheses of the two theorems are satisfiable and the accounting is the model's own: on `( a + b ) * c ;`
    p_expression consumes the 7 tokens with 9 calls of next() (the parenthesis is read three times) *)
 Theorem C16_linear_example :
